@@ -432,6 +432,132 @@ pub fn run(rep: &'static Report) {
             rep.sample(json!({"import_graph": g}));
         }
     });
+    // (iii) plugin status propagated through files the scan already knows when its last phase starts
+    // (a conftest.py / test module that the entry-point plugin pulls in and that imports further
+    // modules itself): the order in which that phase visits the known files is hash order, so the
+    // same tree is scanned under several hash seeds (a labelled sweep) and every classification must
+    // be the model's each time
+    let seeds: Vec<u64> = if thorough { (1..=32).collect() } else { (1..=12).collect() };
+    let mut sweep_scans = 0u64;
+    for (how_in, how_out) in [("star", "star"), ("star", "plugins"), ("plugins", "star"), ("plugins", "plugins")] {
+        let imp = |how: &str, m: &str| if how == "star" { Item::StarImport { module: m.into() } } else { Item::PytestPlugins { modules: vec![m.into()] } };
+        let ws = Ws { files: vec![
+            FileSpec { rel: "plug/myplug.py".into(), plugin: true, items: vec![imp(how_in, "conftest"), Item::fixture("pfx", &[])] },
+            FileSpec::new("plug/conftest.py", vec![imp(how_out, "deep"), Item::fixture("cfx", &[])]),
+            FileSpec::new("plug/deep.py", vec![imp(how_out, "deeper"), Item::fixture("deep_fx", &[])]),
+            FileSpec::new("plug/deeper.py", vec![Item::fixture("deeper_fx", &[])]),
+            FileSpec::new("plug/test_p.py", vec![Item::test("p", &["pfx", "cfx", "deep_fx", "deeper_fx"])]),
+            FileSpec::new("conftest.py", vec![Item::fixture("root_fx", &[])]),
+        ] };
+        let r = ws.render();
+        let sc = Scratch::new("c14p");
+        crate::e5::materialize_with_venv(&ws, &r, sc.path());
+        let root = sc.path().to_string_lossy().to_string();
+        for &seed in &seeds {
+            let rootp = sc.path().to_path_buf();
+            let root2 = root.clone();
+            let lines = crate::seed::on_fresh_thread_seeded(seed, move || {
+                let db = FixtureDatabase::new();
+                db.scan_workspace(&rootp);
+                let mut v: Vec<String> = Vec::new();
+                for e in db.definitions.iter() {
+                    for d in e.value() {
+                        v.push(format!("{} plugin={} third_party={}", def_key(d, &root2), d.is_plugin, d.is_third_party));
+                    }
+                }
+                v.sort();
+                v
+            });
+            sweep_scans += 1;
+            scans.fetch_add(1, Ordering::Relaxed);
+            let want: Vec<String> = {
+                let mut w: Vec<String> = ["conftest.py:4:root_fx plugin=false third_party=false", "plug/conftest.py:5:cfx plugin=true third_party=false", "plug/deep.py:5:deep_fx plugin=true third_party=false", "plug/deeper.py:4:deeper_fx plugin=true third_party=false", "plug/myplug.py:5:pfx plugin=true third_party=false"].iter().map(|x| x.to_string()).collect();
+                w.sort();
+                w
+            };
+            // line numbers depend on the import form (pytest_plugins is rendered after the fixtures): compare names and flags
+            let strip = |v: &Vec<String>| -> Vec<String> { v.iter().map(|l| { let mut p = l.splitn(2, ' '); let k = p.next().unwrap_or(""); let rest = p.next().unwrap_or(""); format!("{}:{} {}", k.split(':').next().unwrap_or(""), k.rsplit(':').next().unwrap_or(""), rest) }).collect() };
+            if strip(&lines) != strip(&want) {
+                let fp = format!("plugin status not propagated through a file the scan already knew (entry module pulls the conftest in by {}, further modules by {})", how_in, how_out);
+                if !rep.count_if_seen(&fp) {
+                    rep.violation(&fp, &format!("hash seed {}: classifications {:?}, expected {:?}", seed, strip(&lines), strip(&want)), || json!({"seed": seed, "files": ws.files.iter().enumerate().map(|(i, f)| json!({"path": f.rel, "text": r.texts[i]})).collect::<Vec<_>>()}));
+                }
+            }
+        }
+    }
+    rep.set("plugin_propagation_seed_sweep", json!({"layouts": 4, "hash_seeds": seeds, "scans": sweep_scans}));
+    // (iv) a workspace larger than the file cache: eviction during the scan's parallel phase must not
+    // decide which conftest.py files get their imports followed afterwards (labelled seed sweep)
+    {
+        let sc = Scratch::new("c14big");
+        let root = sc.path().to_path_buf();
+        for i in 0..2100 {
+            write_file(&root, &format!("pkg{}/test_m{}.py", i % 40, i), "def test_x(hx):\n    pass\n");
+        }
+        for k in 0..40 {
+            write_file(&root, &format!("pkg{}/conftest.py", k), &format!("from helpers{} import *\n", k));
+            write_file(&root, &format!("pkg{}/helpers{}.py", k, k), &format!("import pytest\n\n@pytest.fixture\ndef hx{}():\n    return 1\n", k));
+        }
+        let big_seeds: Vec<u64> = if thorough { (1..=8).collect() } else { (1..=3).collect() };
+        for &seed in &big_seeds {
+            let rootp = root.clone();
+            let found = crate::seed::on_fresh_thread_seeded(seed, move || {
+                let db = FixtureDatabase::new();
+                db.scan_workspace(&rootp);
+                (0..40).filter(|k| db.definitions.contains_key(&format!("hx{}", k))).count()
+            });
+            scans.fetch_add(1, Ordering::Relaxed);
+            if found != 40 {
+                rep.violation("large workspace: fixtures of modules imported by a conftest.py are not discovered once the file cache has evicted entries during the scan", &format!("hash seed {}: {} of 40 helper modules indexed (2140 test/conftest files, cache limit 2000)", seed, found), || json!({"seed": seed, "found": found}));
+            }
+        }
+        rep.set("large_workspace_scans", json!({"files": 2180, "hash_seeds": big_seeds}));
+    }
+    // (v) several editable installs side by side, inside and outside the workspace, registered in
+    // every order (dist-info directories created in every order: read_dir order follows it on tmpfs)
+    {
+        let mut combos: Vec<(Vec<bool>, Vec<usize>)> = Vec::new(); // (inside? per install, creation order)
+        for n in 2..=3usize {
+            for mask in 0..(1u32 << n) {
+                let inside: Vec<bool> = (0..n).map(|i| mask & (1 << i) != 0).collect();
+                for order in crate::db::permutations(n) {
+                    combos.push((inside.clone(), order));
+                }
+            }
+        }
+        let multi = AtomicU64::new(0);
+        par_batches(&combos, 4, |_i, (inside, order)| {
+            let sc = Scratch::new("c14m");
+            let ws = sc.path().join("ws");
+            let sp = ws.join(".venv/lib/python3.11/site-packages");
+            std::fs::create_dir_all(&sp).unwrap();
+            write_file(&ws, "tests/test_t.py", "def test_t():\n    pass\n");
+            for &k in order {
+                let name = format!("plug{}", ["a", "m", "z"][k]);
+                let src = if inside[k] { ws.join(format!("pkgs/{}", name)) } else { sc.path().join(format!("outside/{}", name)) };
+                write_file(&src, &format!("{}.py", name), &format!("import pytest\n\n@pytest.fixture\ndef {}_fx():\n    return 1\n", name));
+                write_file(&sp, &format!("{}-1.0.dist-info/entry_points.txt", name), &format!("[pytest11]\n{} = {}\n", name, name));
+                write_file(&sp, &format!("{}-1.0.dist-info/direct_url.json", name), &format!("{{\"url\": \"file://{}\", \"dir_info\": {{\"editable\": true}}}}", src.display()));
+                write_file(&sp, &format!("__editable__.{}-1.0.pth", name), &format!("{}\n", src.display()));
+            }
+            let db = FixtureDatabase::new();
+            db.scan_workspace(&ws);
+            multi.fetch_add(1, Ordering::Relaxed);
+            for (k, ins) in inside.iter().enumerate() {
+                let name = format!("plug{}_fx", ["a", "m", "z"][k]);
+                let got: Option<(bool, bool)> = db.definitions.get(&name).and_then(|v| v.first().map(|d| (d.is_third_party, d.is_plugin)));
+                let want = Some((!*ins, true));
+                if got != want {
+                    let fp = format!("several editable installs: fixture of an install {} the workspace classified wrongly (third_party, plugin) = {:?}", if *ins { "inside" } else { "outside" }, got);
+                    if !rep.count_if_seen(&fp) {
+                        rep.violation(&fp, &format!("installs inside-workspace flags {:?}, created in order {:?}: {} expected {:?}, got {:?}", inside, order, name, want, got), || json!({"inside": inside, "creation_order": order}));
+                    }
+                }
+            }
+        });
+        scans.fetch_add(multi.load(Ordering::Relaxed), Ordering::Relaxed);
+        rep.set("multi_install_layouts", multi.load(Ordering::Relaxed));
+    }
     let venvs = enumerate_venvs(thorough);
     par_batches(&venvs, 8, |i, v| {
         check_venv(rep, v, &scans);
@@ -448,6 +574,6 @@ pub fn run(rep: &'static Report) {
     rep.set("distinct_nontrivial", (graphs.iter().filter(|g| !g.edges.is_empty()).count() + venvs.len()) as u64);
     rep.set("traces_validated_against_impl", s);
     rep.set("exhaustive", true);
-    rep.set("rule", "(i) every import graph with at most 3 (quick) / 4 (thorough) edges among the 12 possible (source ∈ {conftest.py, m1.py, m2.py, pkg/m3.py}) → (target ∈ {m1, m2, pkg.m3}) pairs, each edge a star import, an explicit import of the target's fixture, an explicit import of every fixture name (so that re-exported and unavailable names are requested too), a pytest_plugins entry or a pytest_plugins entry preceded by an overwritten assignment, in absolute and relative spelling (levels 1 and 2; relative graphs without pytest_plugins edges once more with helper modules named like standard-library modules: http, types, email), including self-loops, cycles and diamonds — materialised on tmpfs and scanned for real; the reference model (PytestLookup with transitive star/pytest_plugins export and per-name explicit export) gives for every name used by test_x.py the defining module or 'not reachable'; compared with go-to-definition (resolver walk), the available-fixtures view (completion walk), the set of modules the scan analysed (scanner walk) and the defining module recorded; (ii) the product of virtualenv layouts: entry-point target {module, package, submodule, mod:attr} × install {regular, editable inside the workspace, editable outside, workspace is the editable root} × {dist-info, egg-info} × raw/normalised distribution directory name × 4 .pth namings × pytest built-ins present/absent × plugin module {plain, star-imports a helper, declares pytest_plugins, explicit import} × chain length 1..3 to the helper's module × {a project conftest also star-imports that module, not}; expected: every plugin fixture found, third-party iff its source lives in site-packages or in an editable root outside the workspace, plugin iff reached from an entry point (propagated by star/pytest_plugins), visible from a project test, and no third-party fixture among workspace symbols");
+    rep.set("rule", "(i) every import graph with at most 3 (quick) / 4 (thorough) edges among the 12 possible (source ∈ {conftest.py, m1.py, m2.py, pkg/m3.py}) → (target ∈ {m1, m2, pkg.m3}) pairs, each edge a star import, an explicit import of the target's fixture, an explicit import of every fixture name (so that re-exported and unavailable names are requested too), a pytest_plugins entry or a pytest_plugins entry preceded by an overwritten assignment, in absolute and relative spelling (levels 1 and 2; relative graphs without pytest_plugins edges once more with helper modules named like standard-library modules: http, types, email), including self-loops, cycles and diamonds — materialised on tmpfs and scanned for real; the reference model (PytestLookup with transitive star/pytest_plugins export and per-name explicit export) gives for every name used by test_x.py the defining module or 'not reachable'; compared with go-to-definition (resolver walk), the available-fixtures view (completion walk), the set of modules the scan analysed (scanner walk) and the defining module recorded; (ii) the product of virtualenv layouts: entry-point target {module, package, submodule, mod:attr} × install {regular, editable inside the workspace, editable outside, workspace is the editable root} × {dist-info, egg-info} × raw/normalised distribution directory name × 4 .pth namings × pytest built-ins present/absent × plugin module {plain, star-imports a helper, declares pytest_plugins, explicit import} × chain length 1..3 to the helper's module × {a project conftest also star-imports that module, not}; expected: every plugin fixture found, third-party iff its source lives in site-packages or in an editable root outside the workspace, plugin iff reached from an entry point (propagated by star/pytest_plugins), visible from a project test, and no third-party fixture among workspace symbols; (iii) four trees in which the entry-point module pulls in the directory's conftest.py, which imports further modules itself (star / pytest_plugins), scanned under a labelled sweep of hash seeds: plugin status must reach every module of the chain each time; (iv) a tree with 2140 test/conftest files (more than the file cache holds) whose 40 conftest.py files each import a helper module: every helper's fixture must be discovered under each swept hash seed; (v) two and three editable installs side by side, each inside or outside the workspace, their metadata created in every order: third-party iff outside, plugin always");
     rep.assume("aliased explicit imports are outside the grammar (documented as unsupported)");
 }
